@@ -53,6 +53,11 @@ Sem(tree) == LET keep == SelectSeq(tree, LAMBDA n : n.k # "comment") IN
              [i \in DOMAIN keep |-> SemNode(keep[i])]
 SemEq_C07(r) == (r.outcome = "ok" /\ r.p1.ok) => (r.p2.ok /\ Sem(r.p1.tree) = Sem(r.p2.tree))
 
+\* --fmt overwrites the file in place: what ends up on disk is the formatter's text (and the file is untouched when spok refuses)
+FmtOnDisk_C07(r) == r.hasdisk => /\ r.disk.exit >= 0
+                                 /\ r.disk.exit = 0 => r.disk.h = r.fmth
+                                 /\ r.disk.exit # 0 => r.disk.h = r.origh
+
 Idem_C11(r) == (r.outcome = "ok" /\ r.p1.ok /\ r.p2.ok) => r.fmt2 = r.fmt
 
 Item(n) == CASE n.k = "comment" -> <<"c", n.t>>
@@ -73,7 +78,7 @@ Drift_Parse(r) == r.haspp => /\ (r.pp.k = "tree") = r.p1.ok
 Bad(P(_)) == SetToSeq({i \in DOMAIN Recs : ~P(Recs[i])})
 ASSUME JsonSerialize("verdict.json",
   [Tiles_C16 |-> Bad(Tiles_C16), Total_C08 |-> Bad(Total_C08), AstEq_C06 |-> Bad(AstEq_C06),
-   SemEq_C07 |-> Bad(SemEq_C07), Idem_C11 |-> Bad(Idem_C11), Kept_C15 |-> Bad(Kept_C15),
+   SemEq_C07 |-> Bad(SemEq_C07), FmtOnDisk_C07 |-> Bad(FmtOnDisk_C07), Idem_C11 |-> Bad(Idem_C11), Kept_C15 |-> Bad(Kept_C15),
    Drift_Toks |-> Bad(Drift_Toks), Drift_Parse |-> Bad(Drift_Parse),
    n |-> Len(Recs),
    nParsed |-> Cardinality({i \in DOMAIN Recs : Recs[i].p1.ok}),
